@@ -308,7 +308,7 @@ fn check_pair(scratch: &Path, pair: &Pair, idx: usize) -> PairOutcome {
 }
 
 pub fn run(ctx: &Ctx) {
-    ctx.set_rule("(prepared state, operation) pairs: struct API (state prepared by a generated build history + lifecycle restore; operation = one cached/uncached request with callbacks deciding keep/delete/replace-metadata, followed by LayerRef writes of metadata/env (4 scopes)/SBOMs/exec.d, in one class after an exec.d write that failed on a missing source file), trait API (handle_layer with create/update/keep/recreate/migrate on the same prepared states, plus a class where an existing layer with an environment is updated by a callback returning the env it was handed), and the real buildpack executable (detect writing a build plan; build reading platform/plan/store, running layer operations and writing launch.toml, store.toml, build/launch SBOMs). Each pair runs in a fresh process under an LD_PRELOAD shim: pass 0 records the sequence of matching libc calls under <layers>, the plan file and <platform> (open/openat/creat, read, write/writev/copy_file_range, mkdir, unlink, rmdir, rename, chmod/fchmod, symlink, opendir/readdir); then for EVERY position k x errno in {EIO, EACCES, ENOSPC} (and ENOENT at creating/writing opens, mkdir, symlink and at read-only opens inside env directories — not at deletions (incl. the chmod that precedes them), listings or optional files, where NotFound legitimately means absent) the pair is re-run from the same prepared state with the k-th call failing. Oracle: if the call (or phase) reports success although the fault was delivered, the lstat snapshot of <layers> and the plan file must equal the fault-free run's; a failing phase must have run the error handler exactly once. Non-trivial: fault delivered at a mutating call or data read of a pair whose fault-free run changes the directory; distinct = hash of (pair, k, errno).");
+    ctx.set_rule("(prepared state, operation) pairs: struct API (state prepared by a generated build history + lifecycle restore; operation = one cached/uncached request with callbacks deciding keep/delete/replace-metadata, followed by LayerRef writes of metadata/env (4 scopes)/SBOMs/exec.d, in one class after an exec.d write that failed on a missing source file), trait API (handle_layer with create/update/keep/recreate/migrate on the same prepared states, plus a class where an existing layer with an environment is updated by a callback returning the env it was handed), and the real buildpack executable (detect writing a build plan; build reading platform/plan/store, running layer operations and writing launch.toml, store.toml, build/launch SBOMs). Plus faults that need no injection: an env entry of an existing layer that is a dangling symbolic link, read through LayerEnv::read_from_layer_dir, LayerRef::read_env and handle_layer — each must report an error. Each pair runs in a fresh process under an LD_PRELOAD shim: pass 0 records the sequence of matching libc calls under <layers>, the plan file and <platform> (open/openat/creat, read, write/writev/copy_file_range, mkdir, unlink, rmdir, rename, chmod/fchmod, symlink, opendir/readdir); then for EVERY position k x errno in {EIO, EACCES, ENOSPC} (and ENOENT at creating/writing opens, mkdir, symlink and at read-only opens inside env directories — not at deletions (incl. the chmod that precedes them), listings or optional files, where NotFound legitimately means absent) the pair is re-run from the same prepared state with the k-th call failing. Oracle: if the call (or phase) reports success although the fault was delivered, the lstat snapshot of <layers> and the plan file must equal the fault-free run's; a failing phase must have run the error handler exactly once. Non-trivial: fault delivered at a mutating call or data read of a pair whose fault-free run changes the directory; distinct = hash of (pair, k, errno).");
     ctx.assume("single faults; stat-family calls are never failed, ENOENT is never injected; close/fsync are not injected; calls made inside glibc without going through an interposable symbol are out of reach");
     ctx.assume("positions are those of the recorded fault-free run; a position that is not reached in a re-run (call order depends on hash-map iteration) is skipped");
     if !shim_path().exists() {
@@ -319,6 +319,7 @@ pub fn run(ctx: &Ctx) {
     for (_p, v) in ctx.regress_files() {
         replay(ctx, "", &v["case"]);
     }
+    natural_faults(ctx, &scratch.path);
     let n = ctx.tier.pick(256, 4000);
     let pairs: Vec<(usize, Pair)> = ctx.generate("pairs", &pair_strategy(), n).into_iter().enumerate().collect();
     let outs = par_map(&pairs, ncpu(), |(i, p)| check_pair(&scratch.path, p, *i));
@@ -356,7 +357,52 @@ pub fn run(ctx: &Ctx) {
     }
 }
 
+/// Faults that need no injection: an environment entry of an existing layer that cannot be read (a dangling symbolic
+/// link where a variable file is expected). Every way of reading that layer's environment has to report it.
+fn natural_faults(ctx: &Ctx, scratch: &Path) {
+    #![allow(deprecated)]
+    use libcnb::layer_env::LayerEnv;
+    let placements: [(&str, &str); 4] = [("env", "X.override"), ("env.build", "Y.append"), ("env.launch", "Z"), ("env.launch/web", "W.default")];
+    for (pi, (dir, file)) in placements.iter().enumerate() {
+        for route in 0..3 {
+            ctx.eval();
+            ctx.class("natural-fault:dangling-link-as-env-entry");
+            let root = scratch.join(format!("natural-{pi}-{route}"));
+            let _ = fsutil::force_remove(&root);
+            let layer = root.join("layers/lay");
+            std::fs::create_dir_all(layer.join(dir)).unwrap();
+            std::fs::create_dir_all(layer.join("env")).unwrap();
+            std::fs::write(layer.join("env/GOOD.override"), b"fine").unwrap();
+            std::os::unix::fs::symlink("/nonexistent/verif/target", layer.join(dir).join(file)).unwrap();
+            std::fs::write(root.join("layers/lay.toml"), "[types]\nbuild = true\nlaunch = true\ncache = true\n").unwrap();
+            let bc = crate::layermodel::make_context(&root);
+            let name: libcnb::data::layer::LayerName = "lay".parse().unwrap();
+            let reported: Result<(), String> = match route {
+                0 => LayerEnv::read_from_layer_dir(&layer).map(|_| ()).map_err(|e| e.to_string()),
+                1 => bc
+                    .cached_layer(&name, libcnb::layer::CachedLayerDefinition { build: true, launch: true, invalid_metadata_action: &|_| libcnb::layer::InvalidMetadataAction::DeleteLayer, restored_layer_action: &|_: &libcnb::generic::GenericMetadata, _| libcnb::layer::RestoredLayerAction::KeepLayer })
+                    .map_err(|e| format!("{e:?}"))
+                    .and_then(|lr| lr.read_env().map(|_| ()).map_err(|e| format!("{e:?}"))),
+                _ => bc.handle_layer(name, crate::props::c10::KeepIt).map(|_| ()).map_err(|e| format!("{e:?}")),
+            };
+            let r = match reported {
+                Err(_) => Ok(()),
+                Ok(()) => Err(Fail::new("C12:unreadable-env-entry-not-reported", format!("{dir}/{file} is a dangling symbolic link; reading the layer's environment through {} reported success", ["LayerEnv::read_from_layer_dir", "cached_layer(..Keep).read_env()", "handle_layer(..Keep)"][route]))),
+            };
+            let _ = fsutil::force_remove(&root);
+            if !ctx.check_case("natural", r, || json!({"natural": {"dir": dir, "file": file, "route": route}})) {
+                return;
+            }
+        }
+    }
+}
+
 pub fn replay(ctx: &Ctx, _sub: &str, case: &Value) {
+    if case.get("natural").is_some() {
+        let scratch = Scratch::new("c12n");
+        natural_faults(ctx, &scratch.path);
+        return;
+    }
     let scratch = Scratch::new("c12r");
     let pair = pair_from_json(&case["pair"]);
     let o = check_pair(&scratch.path, &pair, 0);
